@@ -20,11 +20,11 @@ type gUnit struct {
 	A    []int  `json:"a"`
 }
 type gMachine struct {
-	Name   string            `json:"name"`
-	Start  int               `json:"start"`
-	States []int             `json:"states"`
+	Name   string              `json:"name"`
+	Start  int                 `json:"start"`
+	States []int               `json:"states"`
 	Rows   map[string][][4]int `json:"rows"`
-	Blocks [][]gUnit         `json:"blocks"`
+	Blocks [][]gUnit           `json:"blocks"`
 }
 type gFile struct {
 	Machines []gMachine `json:"machines"`
